@@ -71,35 +71,69 @@ package batch
 //@   props C05
 //@   modifies be
 //@   requires be != nil && (forall k types.PolicyID :: has(be.policies, k) ==> be.policies[k] != nil)
-//@   ensures be.compiled && be.policies == old(be.policies) && be.env == old(be.env)
+//@   ensures be.compiled && be.policies == old(be.policies) && be.env == old(be.env) && be.Variables == old(be.Variables) && be.Values == old(be.Values) && be.callback == old(be.callback)
 //@   ensures !old(be.compiled) ==> (forall k types.PolicyID :: has(be.evalers, k) == has(be.policies, k))
 //@   ensures !old(be.compiled) ==> (forall k types.PolicyID :: has(be.policies, k) ==> (be.evalers[k] != nil && be.evalers[k].Policy == be.policies[k] && be.evalers[k].Evaler.eval == eval.ToEval#0(eval.PolicyToNode#0(eval.foldPolicy#0(be.policies[k])).v)))
 //@   ensures old(be.compiled) ==> be.evalers == old(be.evalers)
 //@   loop 1
-//@     invariant be != nil && !isnil(be.evalers) && be.policies == old(be.policies) && be.env == old(be.env)
+//@     invariant be != nil && !isnil(be.evalers) && be.policies == old(be.policies) && be.env == old(be.env) && be.Variables == old(be.Variables) && be.Values == old(be.Values) && be.callback == old(be.callback)
 //@     invariant forall k types.PolicyID :: has(be.evalers, k) == $done[k]
 //@     invariant forall k types.PolicyID :: $done[k] ==> (be.evalers[k] != nil && be.evalers[k].Policy == be.policies[k] && be.evalers[k].Evaler.eval == eval.ToEval#0(eval.PolicyToNode#0(eval.foldPolicy#0(be.policies[k])).v))
+
+// The evaluator state is well formed at every level: the residual policies are
+// non-nil, and once compiled, the evaluators are exactly those of the residual
+// policies (batchCompile is skipped when `compiled` is set).
+//@ spec func polsOK(ps map[types.PolicyID]*ast.Policy) bool = forall k types.PolicyID :: has(ps, k) ==> ps[k] != nil
+//@ spec func evalersOK(ps map[types.PolicyID]*ast.Policy, es map[types.PolicyID]*idEvaler) bool = (forall k types.PolicyID :: has(es, k) == has(ps, k)) && (forall k types.PolicyID :: has(ps, k) ==> (es[k] != nil && es[k].Policy == ps[k] && es[k].Evaler.eval == eval.ToEval#0(eval.PolicyToNode#0(eval.foldPolicy#0(ps[k])).v)))
+//@ spec func beInv(be *batchEvaler) bool = be != nil && !isnil(be.Values) && polsOK(be.policies) && (be.compiled ==> evalersOK(be.policies, be.evalers))
 
 // Enumeration level k leaves the evaluator state as it found it when it
 // returns normally (the residual policies, the substitution built so far and
 // the environment are restored), so sibling values start from the same state.
+// doPartial only ever drops or rewrites policies (the residual set is a subset
+// of the ids it had) and forces a recompilation.
 //@ func doPartial
+//@   props C05
 //@   modifies be
+//@   requires beInv(be)
 //@   ensures be.Variables == old(be.Variables) && be.Values == old(be.Values) && be.env == old(be.env) && be.callback == old(be.callback)
+//@   ensures beInv(be) && !be.compiled
+//@   ensures forall k types.PolicyID :: has(be.policies, k) ==> has(old(be.policies), k)
+//@   loop 1
+//@     invariant be != nil && *be == entry(*be) && !isnil(np)
+//@     invariant forall k types.PolicyID :: has(np, k) ==> ($done[k] && np[k] != nil)
+//@ func unknownEntity
+//@   inline
 //@ func fixIgnores
-//@   modifies be
-//@   ensures be.Variables == old(be.Variables) && be.Values == old(be.Values) && be.callback == old(be.callback) && be.policies == old(be.policies)
-//@ func diagnosticAuthzWithCallback
-//@   modifies be
-//@   results err
-//@   ensures be.Variables == old(be.Variables) && be.Values == old(be.Values) && be.env == old(be.env) && be.callback == old(be.callback) && be.policies == old(be.policies)
-//@ func doBatch
 //@   props C05
 //@   modifies be
 //@   requires be != nil
+//@   ensures be.Variables == old(be.Variables) && be.Values == old(be.Values) && be.callback == old(be.callback) && be.policies == old(be.policies) && be.compiled == old(be.compiled) && be.evalers == old(be.evalers)
+//@   ensures fixed: be.env.Entities == old(be.env.Entities) && !isIgn(be.env.Principal) && !isIgn(be.env.Action) && !isIgn(be.env.Resource) && !isIgn(be.env.Context)
+//@   ensures kept: (!isIgn(old(be.env.Principal)) ==> be.env.Principal == old(be.env.Principal)) && (!isIgn(old(be.env.Action)) ==> be.env.Action == old(be.env.Action)) && (!isIgn(old(be.env.Resource)) ==> be.env.Resource == old(be.env.Resource)) && (!isIgn(old(be.env.Context)) ==> be.env.Context == old(be.env.Context))
+// What the callback is given is the decision rule of C02 applied to the
+// residual policies, compiled like cedar.Policy compiles them, on the
+// substituted request; and the substitution built so far.
+//@ func diagnosticAuthzWithCallback
+//@   props C05
+//@   modifies be
+//@   requires beInv(be)
 //@   results err
+//@   ensures be.Variables == old(be.Variables) && be.Values == old(be.Values) && be.env == old(be.env) && be.callback == old(be.callback) && be.policies == old(be.policies)
+//@   ensures beInv(be)
+//@   assert before "return be.callback(res)" result: evalersOK(be.policies, be.evalers) && res.Decision == (bAnyPermit(be.evalers, be.env) && !bAnyForbid(be.evalers, be.env)) && res.Values == be.Values
+//@   assert before "return be.callback(res)" request: types.Value(res.Request.Principal) == be.env.Principal && types.Value(res.Request.Action) == be.env.Action && types.Value(res.Request.Resource) == be.env.Resource && types.Value(res.Request.Context) == be.env.Context
+//@ func doBatch
+//@   props C05
+//@   modifies be
+//@   requires beInv(be)
+//@   results err
+//@   ensures wf: err == nil ==> beInv(be)
 //@   ensures restored: err == nil ==> (be.Variables == old(be.Variables) && be.Values == old(be.Values) && be.env == old(be.env) && be.policies == old(be.policies) && be.callback == old(be.callback))
 //@   assert before "err := doBatch(ctx, be)" substituted: be.env.Principal == cloneSub#0(loopEnv.Principal, u.Key, v) && be.env.Action == cloneSub#0(loopEnv.Action, u.Key, v) && be.env.Resource == cloneSub#0(loopEnv.Resource, u.Key, v) && be.env.Context == cloneSub#0(loopEnv.Context, u.Key, v) && be.env.Entities == loopEnv.Entities
+//@   assert before "err := doBatch(ctx, be)" values: has(be.Values, u.Key) && be.Values[u.Key] == v && (forall k types.String :: k != u.Key ==> (has(be.Values, k) == has(prevState.Values, k) && be.Values[k] == prevState.Values[k]))
 //@   loop 1
 //@     invariant be != nil && prevState == entry(*be)
+//@     invariant beInv(be)
+//@     invariant forall k types.String :: k != u.Key ==> (has(be.Values, k) == has(prevState.Values, k) && be.Values[k] == prevState.Values[k])
 //@     invariant chPrincipal == cloneSub#1(loopEnv.Principal, u.Key, types.Value(types.Boolean(true))) && chAction == cloneSub#1(loopEnv.Action, u.Key, types.Value(types.Boolean(true))) && chResource == cloneSub#1(loopEnv.Resource, u.Key, types.Value(types.Boolean(true))) && chContext == cloneSub#1(loopEnv.Context, u.Key, types.Value(types.Boolean(true)))
